@@ -313,7 +313,7 @@ func credFlushRule(p *Prog, r *Report, rule string) {
 		if v.Kind != VSelect {
 			continue
 		}
-		sel := v.Node.(*ast.SelectStmt)
+		sel := v.Stmt.(*ast.SelectStmt)
 		hasQueue, hasDefault, others := false, false, 0
 		for _, cl := range sel.Body.List {
 			cc := cl.(*ast.CommClause)
@@ -464,7 +464,7 @@ func c20R3(p *Prog, r *Report) {
 			// inside a range over m.servers
 			for _, v := range fc.G.V {
 				if v.Kind == VRange {
-					rs := v.Node.(*ast.RangeStmt)
+					rs := v.Stmt.(*ast.RangeStmt)
 					if sel, isSel := ast.Unparen(rs.X).(*ast.SelectorExpr); isSel && sel.Sel.Name == "servers" && rs.Body.Pos() <= cs.Call.Pos() && cs.Call.End() <= rs.Body.End() {
 						if selc, isSelc := ast.Unparen(cs.Call.Fun).(*ast.SelectorExpr); isSelc && rs.Value != nil && objOf(fc.Info(), selc.X) == objOf(fc.Info(), rs.Value) {
 							ok = true
